@@ -144,6 +144,8 @@ type explorer struct {
 	maxRes  int
 	tracker *sessionTracker
 	cw      *lineWriter // contact trace (C03/C06), optional
+	iw      *lineWriter // inspection trace (C20), optional
+	insp    *inspector
 	onLine  func(line *TLine, s flows.Session, sp flows.Sprint, before []byte)
 }
 
@@ -214,6 +216,10 @@ func (x *explorer) explore(sessJSON []byte, script []json.RawMessage, off int, h
 			}
 		}
 		x.tracker.before(s)
+		var resumedRun flows.RunUUID
+		if w := waitingRun(s); w != nil {
+			resumedRun = w.UUID()
+		}
 		cbefore := projContact(s.Contact())
 		before := sessionJSON(s)
 		impossible := resumeImpossible(s, x.maxRes)
@@ -240,6 +246,11 @@ func (x *explorer) explore(sessJSON []byte, script []json.RawMessage, off int, h
 		}
 		h := hist + c.tag
 		x.emit("resume", kind, h, s, sp, cerr, pan, same, impossible, acc, before)
+		if x.iw != nil && cerr == nil && pan == "" {
+			for _, il := range x.insp.lines(x.fx.name+"|"+h, x.sa, s, x.tracker, resumedRun) {
+				x.iw.write(il.Src, il, func(v string) { il.Src = v })
+			}
+		}
 		if x.cw != nil && cerr == nil && s.Contact() != nil {
 			cl := sprintLine(x.fx.name+"|"+h, nil, x.sa, cbefore, s, sp, canonTime(res.ResumedOn().Format(time.RFC3339Nano)), pan)
 			x.cw.write(cl.Src, cl, func(v string) { cl.Src = v })
@@ -259,7 +270,7 @@ func (x *explorer) explore(sessJSON []byte, script []json.RawMessage, off int, h
 	}
 }
 
-func runFixture(fx *fixture, lw *lineWriter, cw *lineWriter, seed int64, offDepth int, maxSt, maxRes int, onLine func(line *TLine, s flows.Session, sp flows.Sprint, before []byte)) (calls int, err error) {
+func runFixture(fx *fixture, lw *lineWriter, cw *lineWriter, iw *lineWriter, seed int64, offDepth int, maxSt, maxRes int, onLine func(line *TLine, s flows.Session, sp flows.Sprint, before []byte)) (calls int, err error) {
 	uuids.SetGenerator(uuids.NewSeededGenerator(123456, time.Now))
 	dates.SetNowFunc(dates.NewSequentialNow(time.Date(2018, 7, 6, 12, 30, 0, 123456789, time.UTC), time.Second))
 	smtpx.SetSender(okSender{})
@@ -279,7 +290,7 @@ func runFixture(fx *fixture, lw *lineWriter, cw *lineWriter, seed int64, offDept
 		return 0, err
 	}
 	eng := fixtureEngine(maxSt, maxRes)
-	x := &explorer{eng: eng, sa: sa, fx: fx, lw: lw, rnd: rand.New(rand.NewSource(seed)), maxSt: eng.Options().MaxStepsPerSprint, maxRes: eng.Options().MaxResumesPerSession, tracker: newTracker(), onLine: onLine, cw: cw}
+	x := &explorer{eng: eng, sa: sa, fx: fx, lw: lw, rnd: rand.New(rand.NewSource(seed)), maxSt: eng.Options().MaxStepsPerSprint, maxRes: eng.Options().MaxResumesPerSession, tracker: newTracker(), onLine: onLine, cw: cw, iw: iw, insp: newInspector()}
 	x.tracker.before(nil)
 	var s flows.Session
 	var sp flows.Sprint
@@ -294,6 +305,11 @@ func runFixture(fx *fixture, lw *lineWriter, cw *lineWriter, seed int64, offDept
 		s, sp, cerr = eng.NewSession(sa, trig)
 	}()
 	x.emit("start", trig.Type(), "", s, sp, cerr, pan, false, false, 0, nil)
+	if iw != nil && cerr == nil && pan == "" && s != nil {
+		for _, il := range x.insp.lines(fx.name+"|", sa, s, x.tracker, "") {
+			iw.write(il.Src, il, func(v string) { il.Src = v })
+		}
+	}
 	if cw != nil && cerr == nil && trig.Contact() != nil && (pan != "" || s.Contact() != nil) {
 		cl := sprintLine(fx.name+"|", nil, sa, projContact(trig.Contact()), s, sp, canonTime(trig.TriggeredOn().Format(time.RFC3339Nano)), pan)
 		cw.write(cl.Src, cl, func(v string) { cl.Src = v })
@@ -320,7 +336,19 @@ func engFixtures(args []string) error {
 	limits := fs.Bool("limits", false, "also run with small random engine limits (C05)")
 	only := fs.String("only", "", "only this fixture")
 	cout := fs.String("contact", "", "also write the contact trace (C03/C06) here")
+	iout := fs.String("inspect", "", "also write the inspection trace (C20) here")
 	fs.Parse(args)
+	var iw *lineWriter
+	if *iout != "" {
+		var f2 *os.File
+		var err error
+		iw, f2, err = newLineWriter(*iout)
+		if err != nil {
+			return err
+		}
+		defer f2.Close()
+		defer func() { iw.w.Flush() }()
+	}
 	var cw *lineWriter
 	if *cout != "" {
 		var cf *os.File
@@ -354,7 +382,7 @@ func engFixtures(args []string) error {
 		if i%*nshards != *shard || (*only != "" && fx.name != *only) {
 			continue
 		}
-		n, err := runFixture(fx, lw, cw, *seed+int64(i), *off, ms, mr, nil)
+		n, err := runFixture(fx, lw, cw, iw, *seed+int64(i), *off, ms, mr, nil)
 		if err != nil {
 			errs = append(errs, fx.name+": "+err.Error())
 			continue
